@@ -62,6 +62,7 @@ static long fault_at = -1; static int fault_kind = 0; static int nbfail = 0;
 enum { F_NONE, F_EOF, F_RESET, F_STALL, F_SHORT, F_AGAIN };
 static char evbuf[1 << 16]; static size_t evlen = 0;
 static char ftpath[256];
+static char iokinds[1 << 15]; /* one letter per server I/O call: r read, w write, p recv(MSG_PEEK) */
 
 static void ev(const char *fmt, ...) {
   va_list ap; int n;
@@ -94,6 +95,7 @@ static int io_fault(int fd, const char *call, int is_write, size_t *len, ssize_t
   long idx;
   if (fdplace[fd]) { ev("uac c%d %s", cid(fd), call); errno = EBADF; *res = -1; return 1; }
   idx = io_index++;
+  if (idx < (long)sizeof iokinds - 1) iokinds[idx] = call[0] == 'w' ? 'w' : call[1] == 'e' && call[2] == 'c' ? 'p' : 'r';
   if (getenv("VH_IOTRACE")) fprintf(stderr, "io %ld c%d %s len=%zu\n", idx, cid(fd), call, *len);
   if (!fdsticky[fd] && idx == fault_at) {
     ev("fault c%d %s", cid(fd), call);
@@ -464,7 +466,8 @@ static void __attribute__((noinline)) finish(void) {
     memset(conns, 0, sizeof conns); pending = NULL;
     unlink(ftpath);
     leaks = __lsan_do_recoverable_leak_check();
-    printf("end io=%ld openleft=%d stray=%d leaks=%d\n", io_index, openleft, stray, leaks ? 1 : 0);
+    printf("end io=%ld openleft=%d stray=%d leaks=%d kinds=%s\n", io_index, openleft, stray, leaks ? 1 : 0,
+           iokinds[0] ? iokinds : "-");
     fflush(stdout);
   }
 }
